@@ -565,7 +565,7 @@ func TestVerif(t *testing.T) {
 	}
 
 	// Group C.
-	nC := r.N(150, 5000)
+	nC := r.N(400, 8000)
 	for k := 0; k < nC; k++ {
 		r.Run(groupReal+k, fmt.Sprintf("real-%d", k), func(c *rep.Case) {
 			runRealCase(t, r, c, k)
